@@ -72,9 +72,12 @@ print('@@' + json.dumps(c04.st_golden(json.loads({spec!r}))))
 """
 
 
-def fresh_interpreter_golden(cfgspec, hashseed, repo):
+def fresh_interpreter_golden(cfgspec, hashseed, repo, optimize=False):
     env = dict(os.environ)
     env["PYTHONHASHSEED"] = str(hashseed)
+    env.pop("PYTHONOPTIMIZE", None)
+    if optimize:
+        env["PYTHONOPTIMIZE"] = "1"  # the twin interpreter runs under `python -O`
     env["TQDM_DISABLE"] = "1"
     code = FRESH_CODE.format(repo=repo, verif=core.VERIF_DIR, spec=json.dumps(cfgspec))
     r = subprocess.run([core.PYTHON, "-c", code], capture_output=True, text=True, env=env, cwd="/tmp", timeout=300)
@@ -269,7 +272,7 @@ def run(spec: dict, ctx) -> dict:
         if golden["raised"] == "ValueError" and "could not be found" in golden.get("msg", ""):
             pass  # C03's business; still usable as a golden (same exception expected)
     if "fresh" in spec:
-        g2 = fresh_interpreter_golden(spec["cfg"], spec["fresh"]["hashseed"], ctx.repo)
+        g2 = fresh_interpreter_golden(spec["cfg"], spec["fresh"]["hashseed"], ctx.repo, optimize=bool(spec["fresh"].get("optimize")))
         stats["probe_fresh_interpreter_golden"] = 1
         if g2 != golden:
             return core.violation(
@@ -304,7 +307,7 @@ def post(pool, pairs, tier, rng):
             n_multi += 1
         if len(gd) > 1:
             specs = [v[0] for v in gd.values()]
-            rerun.append((cd, sorted(gd), dict(specs[0], fresh={"hashseed": pool.hashseeds[(specs[1].get("slot") or 0) % len(pool.hashseeds)]})))
+            rerun.append((cd, sorted(gd), dict(specs[0], fresh={"hashseed": pool.hashseeds[(specs[1].get("slot") or 0) % len(pool.hashseeds)], "optimize": ((specs[1].get("slot") or 0) % len(pool.hashseeds)) in pool.optimize_slots})))
     rerun = rerun[:4]  # self-contained cross-process scenarios (fresh interpreter with the other server's hash seed)
     rs = pool.run([{"prop": PROP, "tier": tier, "timeout": JOB_TIMEOUT, "spec": s0, "slot": s0.get("slot")} for _, _, s0 in rerun])
     for (cd, gds, s0), r in zip(rerun, rs):
@@ -397,7 +400,7 @@ def gen_specs(rng: random.Random, tier: str, n: int) -> list[dict]:
                 specs.append({"seed": rng.getrandbits(48), "cfg": T, "ops": ops, "slot": slot})
     for i in range(FRESH[tier]):
         T = cfgs[i % len(cfgs)]
-        specs.append({"seed": rng.getrandbits(48), "cfg": T, "ops": [rand_noise(rng, T), ["probe", "generate"]], "slot": i % K, "fresh": {"hashseed": rng.randrange(1, 2**32 - 1)}})
+        specs.append({"seed": rng.getrandbits(48), "cfg": T, "ops": [rand_noise(rng, T), ["probe", "generate"]], "slot": i % K, "fresh": {"hashseed": rng.randrange(1, 2**32 - 1), "optimize": i % 2 == 1}})
     return specs
 
 
